@@ -202,6 +202,7 @@ def run(ctx):
     several_faulty_parts(ctx, home, quick)
     race_detector_pass(ctx, home, quick)
     history_independence(ctx, home, quick)
+    over_previous_output(ctx, home, quick)
 
 
 def several_faulty_parts(ctx, home, quick):
@@ -318,6 +319,36 @@ def history_independence(ctx, home, quick):
             w.stop()
         if not bad:
             shutil.rmtree(root, ignore_errors=True)
+
+
+def over_previous_output(ctx, home, quick):
+    """the output for package contents B must not depend on what was in the output directory before: B generated over the output of A (an edit
+    that replaces one type name by another of the same length, or by a longer / shorter one) equals B generated into an empty directory"""
+    tmpl = ("Cal: !record\n  fields:\n    gain: %s\n    offset: float32\nTrace: !protocol\n  sequence:\n    cal: Cal\n    samples: !stream\n      items: %s\n    n: uint32\n")
+    man = "namespace: Ovr\ncpp:\n  sourcesOutputDir: ../out/cpp\n  generateCMakeLists: false\npython:\n  outputDir: ../out/python\nmatlab:\n  outputDir: ../out/matlab\njson:\n  outputDir: ../out/json\n"
+    pairs = [("float32", "float64"), ("int32", "int64"), ("uint8", "int16"), ("float32", "complexfloat64"), ("string", "bool"), ("uint16", "uint32")]
+    for ta, tb in (pairs[:4] if quick else pairs):
+        base = os.path.join(ctx.workdir, "cases", "over_%s_%s" % (ta, tb))
+        shutil.rmtree(base, ignore_errors=True)
+        common.write_tree(base, {"p/_package.yml": man, "p/m.yml": tmpl % (ta, ta), "fresh/p/_package.yml": man, "fresh/p/m.yml": tmpl % (tb, tb)})
+        p1 = cli.run_cli("generate", os.path.join(base, "p"), home)
+        open(os.path.join(base, "p/m.yml"), "w").write(tmpl % (tb, tb))
+        p2 = cli.run_cli("generate", os.path.join(base, "p"), home)
+        p3 = cli.run_cli("generate", os.path.join(base, "fresh/p"), home)
+        ctx.ev(3)
+        if p1.rc or p2.rc or p3.rc:
+            raise Inconclusive("over-previous-output model rejected: %s" % cli.clean(p1.stderr + p2.stderr + p3.stderr)[:300])
+        have = {k: v[3] for k, v in fsmon.snapshot(os.path.join(base, "out")).items() if v[0] == "file"}
+        want = {k: v[3] for k, v in fsmon.snapshot(os.path.join(base, "fresh/out")).items() if v[0] == "file"}
+        ctx.case(("over-previous-output", ta, tb))
+        ctx.count("over-previous-output")
+        diff = sorted(k for k in set(have) | set(want) if have.get(k) != want.get(k))
+        if diff:
+            ctx.violation("depends-on-previous-output:%s" % ("same-length" if len(ta) == len(tb) else "other-length"),
+                          "`%s` -> `%s` generated over the output of the earlier contents differs from a generation into an empty directory in %d file(s), e.g. %s" % (ta, tb, len(diff), diff[:4]),
+                          {"case_dir": base, "diff": diff[:40]})
+        else:
+            shutil.rmtree(base, ignore_errors=True)
 
 
 def race_detector_pass(ctx, home, quick):
